@@ -1,5 +1,6 @@
 import Snel.Lemmas.ParserTotal
 import Snel.Lemmas.ParserQuery
+import Snel.Lemmas.ParserTokenize
 /-!
 # C17 — parsing and dispatch are total; the parser preserves structure
 
@@ -163,6 +164,53 @@ theorem C17_unwrapping_sites_panic :
     parseCommandWith Sites.unwrapping Uni.ascii ("QUERY ev WHERE x = 1".toList ++ List.replicate 309 '0' ++ ".0".toList) = .panic ∧
     Sites.current ≠ Sites.unwrapping := by
   refine ⟨by decide +kernel, by decide +kernel, by decide +kernel, by decide +kernel, by decide +kernel, by decide⟩
+
+/-- what `validate_tokens` decides: the pre-pass of `parse_command` rejects the text -/
+def preRejects (U : Uni) (t : Str) : Bool := (tokenize U t).any (· == .invalid)
+
+/-- **The tokenizer pre-pass is a scan for a non-token character outside the tokenizer's literals.**
+For every text: `parse_command`'s pre-pass rejects iff, pairing quotes the tokenizer's way (`\"` is an
+escaped quote), some character outside the literals is not a token character. Running out of input
+inside a literal is not a rejection (the tokenizer returns the partial literal). -/
+theorem C17_pretokenize_scan (U : Uni) (hU : U.Coherent) (t : Str) : preRejects U t = scanBad U .out t :=
+  tokenize_invalid_iff U hU t .top
+
+/-- **An unterminated literal is never rejected**: if the pre-pass passes `a` and is outside a literal
+after it, then `a` followed by an opening quote and any text without a further quote — backslashes,
+non-token characters, anything — is passed too. This is what makes a grammar literal that ends in a
+backslash (`"C:\tmp\"`, complete for the grammar, open for the tokenizer) acceptable at the end of a
+command. -/
+theorem C17_pretokenize_unterminated_ok (U : Uni) (hU : U.Coherent) (a s : Str) (ha : Clean U a)
+    (hs : s.all notQuote = true) : preRejects U (a ++ '"' :: s) = false := by
+  rw [C17_pretokenize_scan U hU, scanBad_append, ha.1, ha.2]
+  simp [scanBad, scanBad_in_literal U s .str (by simp) hs]
+
+/-- PARTIAL: **the pre-pass never rejects a printed command** of the QUERY fragment whose string literals
+contain no backslash. (With `C17_roundtrip_query` this covers everything `parse_command` does before and
+after routing except `trim`.) The hypothesis on backslashes is needed: see
+`C17_pretokenize_accepts_grammar_fails`. -/
+theorem C17_pretokenize_accepts_printed_partial (U : Uni) (hU : U.Coherent) (K : Kw) (hK : K.Valid) (q : Query)
+    (hq : WFQuery q) (hb : ∀ e, q.whereClause = some e → NoBackslashE e) :
+    preRejects U (printQuery K q) = false := by
+  rw [C17_pretokenize_scan U hU]
+  exact (Clean.printQuery U K hK q hq hb).1
+
+/-- The full statement "the pre-pass never rejects a text the grammar accepts" is false of the code as
+it is: the grammars have no escape syntax, the tokenizer reads `\"` as an escaped quote, so after a
+literal that ends in a backslash the two disagree about what is inside a literal, and a later literal
+with a non-token character is flagged. `query()` accepts the text; `parse_command` answers
+"Found invalid character during tokenization". Reproduced on the real code (finding class
+tokenizer-escape-desync). A literal ending in a backslash at the END of a command is fine. -/
+def qf : Query := { eventType := "ev".toList, whereClause := some (.and (.cmp ['a'] .eq (.str ['x', '\\'])) (.cmp ['b'] .eq (.str ['@']))) }
+theorem C17_pretokenize_accepts_grammar_fails :
+    ∃ t : Str, (∃ q, ofP (queryP Sites.current (fuelOf t) t) = .ok q) ∧ preRejects Uni.ascii t = true ∧
+      parseCommand Uni.ascii t = .error :=
+  ⟨"QUERY ev WHERE a = \"x\\\" AND b = \"@\"".toList, ⟨qf, by decide +kernel⟩, by decide +kernel, by decide +kernel⟩
+
+def qe : Query := { eventType := "files".toList, whereClause := some (.cmp "dir".toList .eq (.str "C:\\tmp\\".toList)) }
+example : parseCommand Uni.ascii "QUERY files WHERE dir = \"C:\\tmp\\\"".toList = .ok (.single (.query qe)) := by decide +kernel
+example : preRejects Uni.ascii "QUERY files WHERE dir = \"C:\\tmp\\\"".toList = false := by decide +kernel
+example : Uni.ascii.Coherent := by intro c h; simp [Uni.ascii] at h
 
 /-- **REMEMBER slices on character boundaries.** `remember.rs` looks for the last " AS " in an
 ASCII-upper-cased copy and slices the original text at that byte offset (and 4 bytes later).
